@@ -69,6 +69,32 @@ func (releaseComp) Corpus() [][]string {
 		// delay - 0.3 s does not), a file less than an hour old is not from the future, the last tick that can be written
 		{"tag a 1 2", "cache a.f1 5 -2+3 h1 1", "cache a.f2 5 -1+3 h2 1", "cache a.f3 5 -3+29999 h3 1", "file a.f1 5 -2+3 x", "file a.f2 5 -1+3 x",
 			"file a.f3 5 -3+29999 x", "file a.f4 4 0+29999 x", "file a.f5 4 1 x", "scan", "restart 1", "scan"},
+		// ---- startRetry (the worker behind the retry channel), one case per branch
+		// the documented path: refused by the receiver, re-hashed (the cached hash was stale), re-added not done,
+		// queued whole as a recovered file announcing the predecessor it announced before; nothing is released
+		{"tag a 1 0", "cache a.f1 5 -1 h1 0", "file a.f1 5 -1 v", "answer a.f1 failed", "validate a.f1:0", "retry a.f1:a.f0", "scan",
+			"restart 0", "recover"},
+		// seeded change C02e (open and read errors merged, Done on any error): a transient open error / read error
+		// after a negative outcome must not mark the file done (shrunk witness first; then with the scan that deletes)
+		{"cache a.f1 5 -1 h1 0", "file a.f1 5 -1 v", "fault open a.f1 eio", "retry a.f1:-"},
+		{"tag a 1 0", "cache a.f1 5 -1 m-v-5 0", "file a.f1 5 -1 v", "answer a.f1 failed", "validate a.f1:0",
+			"fault open a.f1 eio", "retry a.f1:-", "scan", "restart 0", "answer a.f1 none", "recover"},
+		{"tag a 1 0", "conf attempts 1", "cache a.f1 5 -1 m-v-5 0", "file a.f1 5 -1 v", "answer a.f1 none", "validate a.f1:0",
+			"fault read a.f1 eio", "retry a.f1:a.f0", "scan", "restart 0", "recover"},
+		// the file vanishes between Sync and open: the one release startRetry makes (Done without closure, nothing deleted)
+		{"tag a 1 0", "cache a.f1 5 -1 m-v-5 0", "cache a.f2 5 -1 m-v-5 0", "file a.f1 5 -1 v", "file a.f2 5 -1 v",
+			"fault open a.f1 gone", "retry a.f1:-,a.f2:a.f1", "scan"},
+		// S20 (known finding) through the retry worker: vanished => done; the file comes back unchanged and is cleaned up unsent
+		{"tag a 1 0", "cache a.f1 5 -3 m-v-5 0", "file a.f1 5 -3 v", "fault open a.f1 gone", "retry a.f1:-", "file a.f1 5 -3 v", "scan"},
+		// no cache entry; changed on disk (size / one tick); gone before Sync; a done entry; the same name twice (the
+		// fault is met by the first open only); a fault that is never met is dropped with the retry
+		{"tag a 1 0", "cache a.f2 5 -1 h2 0", "cache a.f3 5 -1+3 h3 0", "cache a.f4 5 -1 h4 0", "cache a.f5 5 -1 h5 1", "cache a.f6 5 -1 h6 0",
+			"file a.f1 5 -1 v", "file a.f2 6 -1 v", "file a.f3 5 -1+4 v", "file a.f5 5 -1 w", "file a.f6 5 -1 x",
+			"fault read a.f6 eio", "fault open a.f2 eio", "fault open a.f4 gone",
+			"retry a.f1:-,a.f2:-,a.f3:-,a.f4:-,a.f5:a.f4,a.f6:a.f5,a.f6:zz", "retry a.f2:-", "scan"},
+		// own mutation trials of startRetry: Done on a changed file; the re-hash not stored; the predecessor dropped
+		{"tag a 1 0", "cache a.f1 5 -1 m-v-5 0", "file a.f1 6 -2 w", "retry a.f1:-", "scan"},
+		{"cache a.f1 5 -1 h1 0", "file a.f1 5 -1 v", "retry a.f1:a.f0", "restart 0", "recover"},
 	}
 }
 
@@ -410,7 +436,10 @@ func relGenCase(r *Rand, mode string) []string {
 		add("recerr %d", r.Range(1, 3))
 	}
 	// actions
+	var lastValidated []string
+	vanishedNames := map[string]bool{}
 	validateOp := func() {
+		lastValidated = nil
 		if len(allNames) == 0 {
 			return
 		}
@@ -423,6 +452,7 @@ func relGenCase(r *Rand, mode string) []string {
 				pc = 1
 			}
 			toks = append(toks, fmt.Sprintf("%s:%d", allNames[idx], pc))
+			lastValidated = append(lastValidated, allNames[idx])
 		}
 		// make the scripts end with a verdict the loop terminates on
 		for _, idx := range perm[:k] {
@@ -434,11 +464,51 @@ func relGenCase(r *Rand, mode string) []string {
 		}
 		add("validate %s", strings.Join(toks, ","))
 	}
+	// the retry worker gets files after a negative outcome of the poll (mostly names that were just validated);
+	// about 30% of the retried files meet an opener fault, now and then the file changes or vanishes in between
+	retryOp := func(cands []string) {
+		if len(cands) == 0 {
+			cands = allNames
+		}
+		if len(cands) == 0 {
+			return
+		}
+		k := r.Range(1, min(3, len(cands)))
+		perm := r.Perm(len(cands))
+		var toks []string
+		for _, idx := range perm[:k] {
+			n := cands[idx]
+			if r.Chance(0.1) {
+				n = allNames[r.Intn(len(allNames))]
+			}
+			prev := "-"
+			if r.Chance(0.5) {
+				prev = allNames[r.Intn(len(allNames))]
+			}
+			toks = append(toks, n+":"+prev)
+			if r.Chance(0.3) {
+				ft := r.Pick([]string{"open %s eio", "open %s eio", "read %s eio", "open %s gone"})
+				if strings.HasSuffix(ft, "gone") {
+					// a name that vanished this way is not written again (vanished => done is the known finding S20)
+					vanishedNames[n] = true
+				}
+				add("fault "+ft, n)
+			}
+		}
+		if r.Chance(0.06) {
+			toks = append(toks, toks[0])
+		}
+		add("retry %s", strings.Join(toks, ","))
+	}
 	envChange := func() {
 		if len(files) == 0 {
 			return
 		}
 		f := files[r.Intn(len(files))]
+		if vanishedNames[f.name] {
+			add("rmfile %s", f.name)
+			return
+		}
 		switch r.Intn(3) {
 		case 0:
 			add("rmfile %s", f.name)
@@ -464,7 +534,7 @@ func relGenCase(r *Rand, mode string) []string {
 				choice = 0
 			}
 		} else {
-			choice = []int{0, 1, 1, 2, 2, 3, 4, 5}[r.Intn(8)]
+			choice = []int{0, 1, 1, 2, 2, 2, 3, 4, 5, 6}[r.Intn(10)]
 		}
 		switch choice {
 		case 0:
@@ -473,6 +543,17 @@ func relGenCase(r *Rand, mode string) []string {
 			add("scan")
 		case 2:
 			validateOp()
+			if r.Chance(0.6) {
+				if r.Chance(0.12) {
+					envChange()
+				}
+				retryOp(lastValidated)
+				if r.Chance(0.5) {
+					add("scan")
+				}
+			}
+		case 6:
+			retryOp(cachedNames)
 		case 3:
 			add("restart %d", []int{0, 1, 5, 50}[r.Intn(4)])
 			if mode == "recovery" || r.Chance(0.5) {
@@ -589,6 +670,9 @@ func relGenRewrite(r *Rand, mode string) []string {
 	}
 	positive := func() string { return r.Pick([]string{"passed", "waiting"}) }
 	// something happens while the cached versions are still the ones on disk
+	retryLine := ""
+	var retryFaults []string
+	retryAfter := r.Chance(0.5)
 	allOnDisk := true
 	for _, f := range files {
 		allOnDisk = allOnDisk && f.line != ""
@@ -609,13 +693,44 @@ func relGenRewrite(r *Rand, mode string) []string {
 				toks = append(toks, f.name+":0")
 			}
 			add("validate %s", strings.Join(toks, ","))
+			// the refused files reach the retry worker before or after they are rewritten
+			if r.Chance(0.6) {
+				var rt []string
+				for _, f := range files {
+					if r.Chance(0.8) {
+						rt = append(rt, f.name+":"+r.Pick([]string{"-", "-", files[0].name}))
+						if r.Chance(0.3) {
+							kinds := []string{"open %s eio", "read %s eio"}
+							if retryAfter {
+								// the file is not written again after it vanished (vanished => done is the known finding S20)
+								kinds = append(kinds, "open %s gone")
+							}
+							retryFaults = append(retryFaults, fmt.Sprintf("fault "+r.Pick(kinds), f.name))
+						}
+					}
+				}
+				if len(rt) > 0 {
+					retryLine = "retry " + strings.Join(rt, ",")
+				}
+			}
 		}
+	}
+	emitRetry := func() {
+		if retryLine != "" {
+			ops = append(ops, retryFaults...)
+			add("%s", retryLine)
+			retryLine = ""
+		}
+	}
+	if !retryAfter {
+		emitRetry()
 	}
 	for _, f := range files {
 		if f.line != "" {
 			add("%s", f.line)
 		}
 	}
+	emitRetry()
 	// the releasing step
 	final := r.Intn(6)
 	if mode == "recovery" {
